@@ -14,6 +14,7 @@ if TYPE_CHECKING:
 __all__ = [
     "Screen",
     "Char",
+    "get_display_width",
 ]
 
 
@@ -139,6 +140,21 @@ class Char:
 
     def __repr__(self) -> str:
         return f"{self.__class__.__name__}({self.char!r}, {self.style!r})"
+
+
+def get_display_width(text: str) -> int:
+    """
+    Width of `text` as it is drawn on a :class:`.Screen`: like ``get_cwidth``,
+    but control characters count with the width of their
+    ``Char.display_mappings`` representation (e.g. two cells for "^A").
+    The scroll code has to measure text the same way `Window._copy_body`
+    draws it, otherwise the cursor can end up outside of the window.
+    """
+    if text.isprintable():
+        return get_cwidth(text)  # Nothing is displayed differently.
+
+    mappings = Char.display_mappings
+    return sum(get_cwidth(mappings.get(c, c)) for c in text)
 
 
 _CHAR_CACHE: FastDictCache[tuple[str, str], Char] = FastDictCache(
